@@ -10,6 +10,7 @@ import (
 	"fmt"
 	"net/http"
 	"path"
+	"runtime"
 	"sort"
 	"strings"
 	"sync"
@@ -54,9 +55,16 @@ func mhOf(name string) multihash.Multihash {
 	return mh
 }
 
+// pidVariant selects the key type behind the model's peer "ed" (set per case): 0 = ed25519 (38-byte identity peer ID),
+// 1 = secp256k1 (39-byte identity peer ID: with a 64-byte context ID the longest value key there is).
+var pidVariant int
+
 func pidOf(name string) peer.ID {
 	if name == "rsa" {
 		return ids.PeerT("c12-rsa", "rsa") // sha2-256 hashed key
+	}
+	if pidVariant == 1 {
+		return ids.PeerT("c12-"+name+"-secp", "secp256k1") // identity hashed key, one byte longer
 	}
 	return ids.Peer("c12-" + name) // identity hashed key
 }
@@ -184,7 +192,8 @@ func runCase(tc *tcase, salt int, viaHTTP bool) (got [][]string, panicked string
 		}
 	}()
 	mhVariant = (salt / 2) % 3
-	defer func() { mhVariant = 0 }()
+	pidVariant = (salt / 6) % 2
+	defer func() { mhVariant, pidVariant = 0, 0 }()
 	st := &store{vks: map[string][][]byte{}, mds: map[string][]byte{}}
 	// the metadata store is keyed by the value key alone, shared by all multihashes: the queried multihash's
 	// records are written last so that what the hostile store does to them is what a lookup sees
@@ -458,6 +467,73 @@ func primitives(r *rep.Report, maxLen int, every int) int {
 	return n
 }
 
+// concurrent: the primitives are functions of their arguments whoever else is calling them (DHash.tla, Determinism).  The answers
+// for a set of inputs are computed one call at a time, then eight goroutines compute them again all at once.
+func concurrent(r *rep.Report) int {
+	type in struct {
+		mh     multihash.Multihash
+		vk, md []byte
+	}
+	type out struct{ second, evk, emd, dvk, dmd string }
+	var ins []in
+	for i := 0; i < 48; i++ {
+		mh, _ := multihash.Sum([]byte(fmt.Sprintf("verif-c12-conc-%d", i)), []uint64{multihash.SHA2_256, multihash.SHA2_512, multihash.IDENTITY}[i%3], -1)
+		pid := ids.Peer(fmt.Sprintf("c12-conc-%d", i%5))
+		vk := dhash.CreateValueKey(pid, []byte(fmt.Sprintf("ctx-%d", i)))
+		ins = append(ins, in{mh, vk, []byte(fmt.Sprintf("metadata-%d", i))})
+	}
+	eval := func(x in) (o out) {
+		defer func() {
+			if e := recover(); e != nil {
+				o.second = "panic: " + fmt.Sprint(e)
+			}
+		}()
+		second := dhash.SecondMultihash(x.mh)
+		evk, err1 := dhash.EncryptValueKey(x.vk, x.mh)
+		emd, err2 := dhash.EncryptMetadata(x.md, x.vk)
+		dvk, err3 := dhash.DecryptValueKey(evk, x.mh)
+		dmd, err4 := dhash.DecryptMetadata(emd, x.vk)
+		return out{string(second), fmt.Sprintf("%x %v", evk, err1), fmt.Sprintf("%x %v", emd, err2), fmt.Sprintf("%x %v", dvk, err3), fmt.Sprintf("%x %v", dmd, err4)}
+	}
+	want := make([]out, len(ins))
+	for i, x := range ins {
+		want[i] = eval(x)
+		if want[i].dvk != fmt.Sprintf("%x <nil>", x.vk) || want[i].dmd != fmt.Sprintf("%x <nil>", x.md) {
+			r.Diverge(rep.Divergence{Key: "round-trip", Detail: fmt.Sprintf("input %d: decrypting what was encrypted gives %s / %s", i, want[i].dvk, want[i].dmd)})
+			return 0
+		}
+	}
+	prev := runtime.GOMAXPROCS(0)
+	if prev < 8 {
+		runtime.GOMAXPROCS(8)
+		defer runtime.GOMAXPROCS(prev)
+	}
+	var wg sync.WaitGroup
+	var mu sync.Mutex
+	bad, calls := "", 0
+	for g := 0; g < 8; g++ {
+		wg.Add(1)
+		go func(g int) {
+			defer wg.Done()
+			for it := 0; it < 300; it++ {
+				i := (g*31 + it*7) % len(ins)
+				got := eval(ins[i])
+				mu.Lock()
+				calls++
+				if got != want[i] && bad == "" {
+					bad = fmt.Sprintf("input %d computed while seven other goroutines call the package: %+v, computed alone: %+v", i, got, want[i])
+				}
+				mu.Unlock()
+			}
+		}(g)
+	}
+	wg.Wait()
+	if bad != "" {
+		r.Diverge(rep.Divergence{Key: "not-a-function-under-concurrency", Detail: bad})
+	}
+	return calls
+}
+
 func Run(args []string) *rep.Report {
 	fs := flag.NewFlagSet("c12", flag.ExitOnError)
 	file := fs.String("cases", "", "ndjson case table exported by TLC")
@@ -518,6 +594,7 @@ func Run(args []string) *rep.Report {
 		r.SetExtra("read_error", err.Error())
 	}
 	r.SetExtra("primitive_checks", primitives(r, *maxLen, *every))
+	r.SetExtra("concurrent_calls", concurrent(r))
 	r.SetExtra("cases_through_http_transport", httpRuns)
 	return r
 }
